@@ -552,7 +552,6 @@ THEOREMS = [
     "BluetoeModel.AttWriteQueue.released_after",
     "BluetoeModel.AttWriteQueue.other_client_queue_full",
     "BluetoeModel.AttWriteQueue.prepare_iff_write_permitted",
-    "BluetoeModel.AttWriteQueue.never_oob",
 ]
 
 PROPS = {
